@@ -944,7 +944,8 @@ def c14_7(ctx: Ctx) -> RuleResult:
     """TOO_FEW_REALIZATIONS exactly when a filter leaves no positive weight: failed
     realizations are never selected, and the positive-weight guard dominates every
     return of the filter (shared with C04.4 / C04.6)."""
-    from .c04 import c04_4, c04_6
+    from .c04 import c04_6
+    from .c04 import ranking_of_successes as c04_4
 
     res = RuleResult("C14.7", "DOM", "filters report TOO_FEW_REALIZATIONS when failures leave no positively weighted realization (failed ones are never selected; guard before every return)")
     for sub in (c04_4, c04_6):
